@@ -183,8 +183,12 @@ end Jade.Sys
 
 namespace Jade.Sys
 
+theorem freshHid_some_iff (s : Sys) (x : SubP) (h : Hid) :
+    freshHid s x (some h) = true ↔ (s.slurm h = none ∧ h ∉ x.out) := by
+  simp [freshHid]
+
 macro "frame_all" : tactic => `(tactic|
-  try simp only [holderPend, holderBidx, holderSub, Orphan, procs_setSub, procs_setNode, procs_setProc, setSub_fields,
+  try simp only [freshHid_some_iff, holderPend, holderBidx, holderSub, Orphan, procs_setSub, procs_setNode, procs_setProc, setSub_fields,
     setNode_fields, setProc_fields] at *)
 
 set_option maxHeartbeats 8000000 in
@@ -244,6 +248,22 @@ theorem sbatch_fresh {s : Sys} {p : Pid} {x : SubP} {jobs : List JobId} (hi : Ba
       rw [hbid'] at hpnd; exact Nat.lt_irrefl _ hpnd
     · exact hno ho
 
+theorem nodup_snoc {bs : List Batch} {b : Batch} (n1 : (bs.flatMap (·.jobs)).Nodup)
+    (n2 : (bs.map (·.bid)).Nodup) (hnd : b.jobs.Nodup) (f1 : ∀ j ∈ b.jobs, j ∉ bs.flatMap (·.jobs))
+    (f2 : b.bid ∉ bs.map (·.bid)) :
+    ((bs ++ [b]).flatMap (·.jobs)).Nodup ∧ ((bs ++ [b]).map (·.bid)).Nodup := by
+  constructor
+  · simp only [List.flatMap_append, List.flatMap_cons, List.flatMap_nil, List.append_nil]
+    rw [List.nodup_append]
+    exact ⟨n1, hnd, fun a ha c hc hac => f1 c hc (hac ▸ ha)⟩
+  · simp only [List.map_append, List.map_cons, List.map_nil]
+    rw [List.nodup_append]
+    refine ⟨n2, by simp, ?_⟩
+    intro a ha c hc hac
+    simp only [List.mem_singleton] at hc
+    subst hc; subst hac
+    exact f2 ha
+
 set_option maxHeartbeats 8000000 in
 theorem batchInv_nodup_step {s s' : Sys} {op : Op} (hi : BatchInv s) (h : step s op = some s') :
     (s'.batches.flatMap (·.jobs)).Nodup ∧ (s'.batches.map (·.bid)).Nodup := by
@@ -252,20 +272,14 @@ theorem batchInv_nodup_step {s s' : Sys} {op : Op} (hi : BatchInv s) (h : step s
   cases op <;> step_cases h <;> frame_all <;>
     first
     | exact ⟨n1, n2⟩
-    | (rename_i hguard hproc
-       obtain ⟨hpc, -, -, hnd, -, hg, -⟩ := hguard
-       obtain ⟨f1, f2⟩ := sbatch_fresh hi hproc hpc (fun j hj => ⟨(hg j hj).1, (hg j hj).2.1⟩)
-       constructor
-       · simp only [List.flatMap_append, List.flatMap_cons, List.flatMap_nil, List.append_nil]
-         rw [List.nodup_append]
-         exact ⟨n1, hnd, fun a ha b hb hab => f1 b hb (hab ▸ ha)⟩
-       · simp only [List.map_append, List.map_cons, List.map_nil]
-         rw [List.nodup_append]
-         refine ⟨n2, by simp, ?_⟩
-         intro a ha b hb hab
-         simp only [List.mem_singleton] at hb
-         subst hb; subst hab
-         exact f2 ha)
+    | (rename_i hA hB
+       first
+       | (obtain ⟨hpc, -, -, hnd, -, hg, -⟩ := hA
+          obtain ⟨f1, f2⟩ := sbatch_fresh hi hB hpc (fun j hj => ⟨(hg j hj).1, (hg j hj).2.1⟩)
+          exact nodup_snoc n1 n2 hnd f1 f2)
+       | (obtain ⟨hpc, -, -, hnd, -, hg, -⟩ := hB
+          obtain ⟨f1, f2⟩ := sbatch_fresh hi hA hpc (fun j hj => ⟨(hg j hj).1, (hg j hj).2.1⟩)
+          exact nodup_snoc n1 n2 hnd f1 f2))
 
 theorem batchInv_step {s s' : Sys} {op : Op} (hi : BatchInv s) (h : step s op = some s') : BatchInv s' := by
   obtain ⟨l1, l2, l3⟩ := batchInv_loc_step hi h
@@ -282,3 +296,4 @@ theorem batchInv_run {s s' : Sys} (ops : List Op) (hi : BatchInv s) (h : run s o
     · cases h
 
 end Jade.Sys
+
